@@ -55,6 +55,40 @@ __CPROVER_assigns(obj->red, obj->left, obj->left->red, obj->left->right, obj->ri
                   _q_treetbl_flip_color_cnt, _q_treetbl_rotate_right_cnt)
 __CPROVER_assigns(obj->left->left != NULL: obj->left->left->red);
 
+/* move_red_left, checked MODULARLY against the contracts of flip_color, rotate_right and rotate_left.
+ * Case A (right-left grandchild absent or black): the three colours are inverted, nothing is rewired.
+ * Case B (right-left grandchild RL red): RL becomes the root with the node's ORIGINAL colour, the node becomes its black
+ * left child and adopts RL's old left subtree, the old right child R becomes (or stays below) the right side, black, and
+ * adopts RL's old right subtree; in the 2-3-4 variant a red right-right grandchild RR is then rotated above R. */
+static qtreetbl_obj_t *move_red_left(qtreetbl_obj_t *obj)
+__CPROVER_requires(__CPROVER_is_fresh(obj, sizeof(*obj)) && __CPROVER_is_fresh(obj->left, sizeof(*obj)) && __CPROVER_is_fresh(obj->right, sizeof(*obj)))
+__CPROVER_requires(obj->right->left == NULL || __CPROVER_is_fresh(obj->right->left, sizeof(*obj)))
+__CPROVER_requires(obj->right->right == NULL || __CPROVER_is_fresh(obj->right->right, sizeof(*obj)))
+__CPROVER_ensures((__CPROVER_old(obj->right->left) == NULL || !__CPROVER_old(obj->right->left->red)) ==>
+                  (__CPROVER_return_value == obj && obj->red == !__CPROVER_old(obj->red) && obj->left->red == !__CPROVER_old(obj->left->red) &&
+                   obj->right->red == !__CPROVER_old(obj->right->red) && obj->left == __CPROVER_old(obj->left) && obj->right == __CPROVER_old(obj->right) &&
+                   obj->right->left == __CPROVER_old(obj->right->left) && obj->right->right == __CPROVER_old(obj->right->right)))
+__CPROVER_ensures((__CPROVER_old(obj->right->left) != NULL && __CPROVER_old(obj->right->left->red)) ==>
+                  (__CPROVER_return_value == __CPROVER_old(obj->right->left) && __CPROVER_return_value->left == obj &&
+                   __CPROVER_return_value->red == __CPROVER_old(obj->red) && obj->red == 0 &&
+                   obj->left == __CPROVER_old(obj->left) && obj->left->red == !__CPROVER_old(obj->left->red) &&
+                   obj->right == __CPROVER_old(obj->right->left->left)))
+__CPROVER_ensures((__CPROVER_old(obj->right->left) != NULL && __CPROVER_old(obj->right->left->red) &&
+                   (__CPROVER_old(obj->right->right) == NULL || !__CPROVER_old(obj->right->right->red))) ==>
+                  (__CPROVER_return_value->right == __CPROVER_old(obj->right) && __CPROVER_return_value->right->red == 0 &&
+                   __CPROVER_return_value->right->left == __CPROVER_old(obj->right->left->right) &&
+                   __CPROVER_return_value->right->right == __CPROVER_old(obj->right->right)))
+__CPROVER_ensures((__CPROVER_old(obj->right->left) != NULL && __CPROVER_old(obj->right->left->red) &&
+                   __CPROVER_old(obj->right->right) != NULL && __CPROVER_old(obj->right->right->red)) ==>
+                  (__CPROVER_return_value->right == __CPROVER_old(obj->right->right) && __CPROVER_return_value->right->red == 0 &&
+                   __CPROVER_return_value->right->left == __CPROVER_old(obj->right) && __CPROVER_return_value->right->left->red == 1 &&
+                   __CPROVER_return_value->right->left->left == __CPROVER_old(obj->right->left->right) &&
+                   __CPROVER_return_value->right->left->right == __CPROVER_old(obj->right->right->left)))
+__CPROVER_assigns(obj->red, obj->right, obj->left->red, obj->right->red, obj->right->left, obj->right->right,
+                  _q_treetbl_flip_color_cnt, _q_treetbl_rotate_right_cnt, _q_treetbl_rotate_left_cnt)
+__CPROVER_assigns(obj->right->left != NULL: obj->right->left->red, obj->right->left->left, obj->right->left->right)
+__CPROVER_assigns(obj->right->right != NULL: obj->right->right->red, obj->right->right->left);
+
 #include "src/utilities/qstring.c"
 #include "src/containers/qtreetbl.c"
 
@@ -62,3 +96,4 @@ void h_dfcc_rotate_left(void) { qtreetbl_obj_t *o; rotate_left(o); }
 void h_dfcc_rotate_right(void) { qtreetbl_obj_t *o; rotate_right(o); }
 void h_dfcc_flip_color(void) { qtreetbl_obj_t *o; flip_color(o); }
 void h_dfcc_move_red_right(void) { qtreetbl_obj_t *o; move_red_right(o); }
+void h_dfcc_move_red_left(void) { qtreetbl_obj_t *o; move_red_left(o); }
